@@ -33,6 +33,20 @@ CHECKS = {
         note='The finder patterns are contract stubs in (1); their contract (canonical text -> exactly the labelled segments) is '
              'the L-EXACT family of C01. Document invariant from the preprocessor: a Twp/Rge is followed by >= 1 character unless '
              'it ends the text. Strings outside the vocabulary, unicode, and >3 segments are outside the bound.'),
+    'C10': dict(
+        engine='S+M', category='other', design_ref='DESIGN.md §4 C10',
+        technique='CrossHair symbolic execution of the real flag-producing glue on provenance documents with contract finder '
+                  'patterns and of gen_flags_chunk on contract warning patterns; z3 exact bounded regex model (engine M) for the '
+                  'trigger phrases on the live warning patterns',
+        text='On every document of the bounded family (0..2 / 0..3 segments x fillers incl. trigger words x 11 parse modes): '
+             'w_flags/e_flags are lists of str paired one-to-one with (flag, context) tuples of str on the description and on '
+             'every tract; every description flag is on every tract; an error Twp/Rge/Sec on any tract implies an error flag; '
+             'trigger words in the text give their warning with the words in the context (not asserted under segment, which is '
+             'documented to lose warnings). gen_flags_chunk: for 1..3 matches at distances around the context-window sizes every '
+             'match is inside a flag context. M: each trigger phrase of Appendix A (3 casings) in any context of <= 3 (5) '
+             'characters is matched by its live warning pattern.',
+        note='Contract finder patterns as in C03. Trigger phrase tables are the oracle. "less & except" is accepted through its '
+             'first word. Flags raised by Tract parsing (dup_lot etc.) are shape-checked in C14/C06 harnesses.'),
     'C12': dict(
         engine='M+Z+S', category='model_checking', design_ref='DESIGN.md §4 C12',
         technique='SMT (z3): exact bounded encoding of re matching + regular-language inclusion on the live unpacker '
